@@ -196,6 +196,16 @@ class Run(RunBase):
             all_ids = [i for i, _, _ in net_ids(u["nets"][op["key"]])]
             new = set(all_ids)
             return not (new & set(m.ids_of_kind(*OBST_KINDS)))
+        if k == "peek":
+            return True
+        if k == "remove_intruder":
+            ids = op["ids"]
+            o = u["objects"].get(op["key"])
+            if o is None or o["kind"] != op["kind"] or len(set(ids)) != len(ids) or not ids:
+                return False
+            if any(t[0] in m.contained for t in ids_of(o["kind"], o["spec"])):
+                return False
+            return all(m.contained.get(i, (None,))[0] == op["kind"] for i in ids)
         if k == "remove":
             ids = op["ids"]
             if len(set(ids)) != len(ids) or not ids:
@@ -533,6 +543,44 @@ class Run(RunBase):
         self._check_state(op, "state-after-remove")
         return "ok"
 
+    def _op_remove_intruder(self, op):
+        """List-form removal whose list contains an object that is NOT in the scenario: the call may fail half-way.
+        Whatever it removed, the ids of the removed objects are free again and nothing else changed."""
+        kind, ids = op["kind"], op["ids"]
+        sc = self.sc
+        objs = [self._find(kind, i) for i in ids]
+        if any(o is None for o in objs):
+            raise HarnessError(f"model says {kind} {ids} contained but the scenario cannot find it")
+        objs.insert(op["pos"] % (len(objs) + 1), build_obj(kind, self.universe["objects"][op["key"]]["spec"]))
+        self.faults["F-midbatch"] += 1
+        fn = {"lanelet": lambda x: sc.remove_lanelet(x, referenced_elements=False), "sign": sc.remove_traffic_sign,
+              "light": sc.remove_traffic_light, "intersection": sc.remove_intersection}[kind]
+        try:
+            fn(objs)
+            raised = None
+        except Exception as e:  # noqa
+            raised = type(e).__name__
+        gone = [i for i in ids if self._find(kind, i) is None]
+        for i in gone:
+            self.m.remove_id(i)
+        self.probe("list-removal-interrupted" if raised and gone else "list-removal-with-foreign-object")
+        self._check_state(op, "state-after-interrupted-remove")
+        return {"raised": raised, "gone": gone}
+
+    def _op_peek(self, op):
+        """Ordinary caller code: ask for the lists of contained objects and edit the lists it was handed (they are the
+        caller's lists).  The scenario's own bookkeeping must not care."""
+        sc, net = self.sc, self.sc.lanelet_network
+        for lst in (net.lanelets, net.traffic_signs, net.traffic_lights, net.intersections, sc.obstacles,
+                    sc.static_obstacles, sc.dynamic_obstacles):
+            if isinstance(lst, list):
+                if lst:
+                    lst.pop(op["k"] % len(lst))
+                lst.reverse()
+        self.probe("caller-edits-returned-lists")
+        self._check_state(op, "state-after-peek")
+        return "ok"
+
     def _op_restart(self, op):
         self.faults["F-restart"] += 1
         self.probe("restart-" + op["how"])
@@ -660,6 +708,16 @@ def _remover(rng, run):
         op = {"op": "remove", "kind": kind, "ids": chosen, "form": form}
         if kind == "lanelet":
             op["ref"] = rng.chance(0.7)
+        r = rng.random()
+        if r < 0.06:
+            yield {"op": "peek", "k": rng.randrange(7)}
+            continue
+        if r < 0.2 and kind != "obstacle":
+            cands = [k for k, o in sorted(run.universe["objects"].items()) if o["kind"] == kind and
+                     not any(t[0] in m.contained for t in ids_of(kind, o["spec"]))]
+            if cands:
+                op = {"op": "remove_intruder", "kind": kind, "ids": chosen, "key": rng.pick(cands),
+                      "pos": rng.randrange(4)}
         yield op
 
 
@@ -715,12 +773,16 @@ class C09(Property):
                        "remove-intersection-single", "lanelet-removal-takes-sign-or-light",
                        "lanelet-removal-leaves-shared-sign", "replace-overlapping-ids", "restart-pickle",
                        "restart-deepcopy", "remove-non-contained-obstacle", "gen-between-gen-and-add", "erase-network",
-                       "restart-file", "object-with-internally-repeated-id", "replace-with-internally-repeated-id", "lanelet-with-reference-to-foreign-id-removed"]
+                       "restart-file", "object-with-internally-repeated-id", "replace-with-internally-repeated-id", "lanelet-with-reference-to-foreign-id-removed",
+                       "list-removal-interrupted", "caller-edits-returned-lists"]
     assumptions = [
         "interleaving granularity is one public call (the library has no threads)",
         "list-form adds are sequential adds: the accepted prefix before a refused element stays (documented relaxation)",
-        "removal of network elements that are not contained and add_objects(LaneletNetwork) onto a non-empty network "
-        "are not generated (undocumented misuse)",
+        "single removals of network elements that are not contained and add_objects(LaneletNetwork) onto a non-empty "
+        "network are not generated (undocumented misuse); a LIST removal may contain one object that is not contained "
+        "(the call may fail half-way): whatever is gone afterwards must have its ids freed, nothing else may change",
+        "lists handed out by the getters (lanelets, traffic_signs, ..., obstacles) are the caller's: editing them is "
+        "not a way of changing the scenario",
         "objects are rebuilt from their JSON spec for every add",
     ]
 
